@@ -238,6 +238,10 @@ class Gen:
             if r.random() < 0.2:
                 self.feat("sum")
                 return ["op", "|", [self.prim(False), self.prim(False)]]
+            if r.random() < 0.07:
+                # an implicit reference to an atomic schema: the emitter inlines it and keeps no component
+                self.feat("implicit-atomic-ref")
+                return ["rec", self.fresh("r"), self.prim(False)]
             return self.prim()
         if tag == "obj":
             x = r.random()
